@@ -230,15 +230,16 @@ theorem heap_getters_reviewed :
       ("chewing_cand_String", 0), ("chewing_cand_string_by_index", 0), ("chewing_aux_String", 0),
       ("chewing_kbtype_String", 0), ("chewing_zuin_String", 0)] := by decide
 
-/-- each stored iterator is touched by exactly its enumerate / hasNext / get functions -/
+/-- each stored iterator is touched by exactly its enumerate / hasNext / get functions, and by `chewing_Reset`,
+    which drops all four (C17 fix "chewing_Reset drops the pending enumeration iterators"; model op `.reset`) -/
 theorem iter_sites_reviewed :
     iterSites =
-      [("kbcompat_iter", ["chewing_kbtype_Enumerate", "chewing_kbtype_hasNext", "chewing_kbtype_String",
+      [("kbcompat_iter", ["chewing_Reset", "chewing_kbtype_Enumerate", "chewing_kbtype_hasNext", "chewing_kbtype_String",
                           "chewing_kbtype_String_static"]),
-       ("cand_iter", ["chewing_cand_Enumerate", "chewing_cand_hasNext", "chewing_cand_String",
+       ("cand_iter", ["chewing_Reset", "chewing_cand_Enumerate", "chewing_cand_hasNext", "chewing_cand_String",
                       "chewing_cand_String_static"]),
-       ("interval_iter", ["chewing_interval_Enumerate", "chewing_interval_hasNext", "chewing_interval_Get"]),
-       ("userphrase_iter", ["chewing_userphrase_enumerate", "chewing_userphrase_has_next",
+       ("interval_iter", ["chewing_Reset", "chewing_interval_Enumerate", "chewing_interval_hasNext", "chewing_interval_Get"]),
+       ("userphrase_iter", ["chewing_Reset", "chewing_userphrase_enumerate", "chewing_userphrase_has_next",
                             "chewing_userphrase_get"])] := by decide
 
 /-- functions classified as possibly mutating the user dictionary take the context mutably, and none of the
